@@ -178,7 +178,7 @@ Interp(j, toks, i, st) ==
       IN IF bad THEN [st1 EXCEPT !.err = TRUE] ELSE Interp(j, toks, i + 1, st3)
 
 IsTok(tk) == \/ tk.t = "lit"
-             \/ tk.t = "ref" /\ tk.r \in created
+             \/ tk.t = "ref" /\ tk.r \in created /\ (tk.r.j = 0 \/ tk.r.j \in Live)
 
 \* BashJob.command(' '.join(tokens))
 Command(j, toks) ==
@@ -187,11 +187,11 @@ Command(j, toks) ==
   /\ LET st == Interp(j, toks, 1, [deps |-> deps, valid |-> valid, mentioned |-> mentioned, inputs |-> inputs,
                                     intout |-> intout, uses |-> uses, out |-> <<>>, err |-> FALSE])
      IN /\ inputs' = st.inputs
-        /\ IF st.err
+        /\ deps' = st.deps /\ valid' = st.valid /\ mentioned' = st.mentioned /\ intout' = st.intout
+        /\ IF st.err        \* the handler raised: what it did for the earlier references stays; the command is not added
            THEN /\ phase' = "aborted"
-                /\ UNCHANGED <<deps, valid, mentioned, intout, uses, cmd>>
-           ELSE /\ deps' = st.deps /\ valid' = st.valid /\ mentioned' = st.mentioned /\ intout' = st.intout
-                /\ uses' = st.uses
+                /\ UNCHANGED <<uses, cmd>>
+           ELSE /\ uses' = st.uses
                 /\ cmd' = [cmd EXCEPT ![j] = Append(@, st.out)]
                 /\ UNCHANGED phase
   /\ UNCHANGED <<jobvars, resvars, extout, outpaths, expl, wout, order, locvars, srvvars>>
